@@ -320,7 +320,7 @@ func init() {
 					Viol []string `json:"viol"`
 				}
 				if err != nil {
-					r.Viol = []string{"worker crashed: " + err.Error()}
+					r.Viol = explore.CrashViol(err)
 				} else {
 					json.Unmarshal(b, &r)
 				}
